@@ -55,6 +55,9 @@ var c26Assumptions = []string{
 	"while finding " + c26FindMergeKeylessCI + " is listed open, a disagreement on a join that involves a keyless table and a collated key column and whose dolt plan contains a MergeJoin is attributed to it (counted as excluded_known); the pinned sub-test reports it",
 	"while finding " + c26FindHashJoinExtra + " is listed open (not minimised, replays saved), a disagreement on a join with a collated key column or a BIGINT = BIGINT UNSIGNED key whose dolt plan contains a HashLookup and where dolt returns more rows than the reference is attributed to it (counted as excluded_known)",
 	"while findings " + c26FindCountColIndex + " / " + c26FindLeftOnLiteral + " are listed open (not minimised, replays saved), disagreements of exactly their plan shapes (COUNT(col) over an unfiltered index scan; LEFT JOIN with a literal comparison in ON run as LeftOuterLookupJoin/LeftOuterHashJoin returning more rows) are attributed to them (counted as excluded_known)",
+	"grammar exclusion (go-mysql-server bug shared by both engines): a disagreement on a join with a _ci/_ai_ci collated key column whose dolt plan contains a HashLookup is not compared (the hash join is wrong in both engines and each returns a different wrong subset; counted as excluded_known, documented by the pinned sub-test pinned_hashjoin_accent_insensitive_key)",
+	"grammar exclusion (go-mysql-server bug shared by both engines): no negated equality (<>, NOT IN, NOT BETWEEN, NOT(...)) on DECIMAL columns: the shared range builder turns it into the range (NULL, ∞) and the memory engine drops the filter (returns the rows equal to the literal); avoided draws are counted as excluded_known",
+	"grammar exclusion (go-mysql-server bug shared by both engines): no `<=>` on columns with a case/accent-insensitive collation (as a filter it compares bytes, as an index range it compares by collation: `c <=> 'á'` matches 'a' only through an index); replaced operators are counted as excluded_known",
 	"while finding " + c26FindKeylessCount + " is listed open, `SELECT COUNT(col) FROM <keyless table>` is not generated (counted as excluded_known); the pinned sub-test reports it",
 }
 
@@ -616,6 +619,28 @@ const c26FindCountColIndex = "C26-count-column-over-index-scan-unminimised"
 // LeftOuterHashJoin, returns more rows than the reference (outer rows repeated).
 const c26FindLeftOnLiteral = "C26-leftjoin-on-literal-extra-rows-unminimised"
 
+// c26FindHashJoinAI: dolt-visible, but the reference engine is wrong in the same way: a hash join
+// on a utf8mb4_0900_ai_ci key misses pairs that are equal only under the collation's folding.
+const c26FindHashJoinAI = "C26-hashjoin-accent-insensitive-key"
+
+func c26PinnedHashJoinAI(t *testing.T, srv *vsql.Server, admin *vsql.Session) string {
+	db := srv.NewDBName()
+	admin.MustExec(t, "CREATE DATABASE "+db)
+	defer admin.Exec("DROP DATABASE " + db)
+	s := srv.Session(t, "pinned", db)
+	defer s.Close()
+	s.MustExec(t, "CREATE TABLE t0 (k INT PRIMARY KEY, c1 VARCHAR(8) COLLATE utf8mb4_0900_ai_ci)")
+	s.MustExec(t, "CREATE TABLE t1 (k INT PRIMARY KEY, c0 VARCHAR(40) COLLATE utf8mb4_0900_ai_ci)")
+	s.MustExec(t, "INSERT INTO t0 VALUES (1,'ab'),(2,'Ab'),(3,'a'),(4,'A')")
+	s.MustExec(t, "INSERT INTO t1 VALUES (1,'Ab'),(2,'ä')")
+	h := s.MustQuery(t, "SELECT /*+ HASH_JOIN(a,b) */ a.k, b.k FROM t0 a INNER JOIN t1 b ON a.c1 = b.c0")
+	n := s.MustQuery(t, "SELECT /*+ INNER_JOIN(a,b) */ a.k, b.k FROM t0 a INNER JOIN t1 b ON a.c1 = b.c0")
+	if got, want := vsql.Show(h.Sorted()), vsql.Show(n.Sorted()); got != want || want != "(1,1) (2,1) (3,2) (4,2)" {
+		return "t0(k, c1 VARCHAR utf8mb4_0900_ai_ci) = {'ab','Ab','a','A'}, t1(k, c0 same collation) = {'Ab','ä'}: HASH_JOIN on a.c1 = b.c0 returns " + got + ", the nested-loop join " + want + " (want (1,1) (2,1) (3,2) (4,2)); the memory engine's hash join is wrong in the same way"
+	}
+	return ""
+}
+
 // c26FindHashJoinExtra: thorough-tier disagreements, not minimised: hash joins (same plan in both
 // engines) on a collated key or on BIGINT = BIGINT UNSIGNED where dolt returns MORE rows than the
 // reference (e.g. 9223372036854775807 joined to 9223372036854775808). Evidence: saved replays.
@@ -802,6 +827,18 @@ func (c *qCase) runQuery(q qQuery) {
 			// the same groups with larger counts: rows delivered once per overlapping range
 			c.rec.Excluded(1)
 			c.rec.Class("known:"+c26FindPrefixOverlap, 1)
+			return
+		}
+	}
+	if mismatch && q.has("ci_join_key") {
+		// grammar exclusion: go-mysql-server's hash join on a key with a case/accent-insensitive
+		// collation is wrong in BOTH engines (the hash key does not fold what the collation folds:
+		// 'a' never meets 'ä' under utf8mb4_0900_ai_ci; 9 of 30 rows in the generated case), and the
+		// two engines return different wrong subsets. Pinned as finding c26FindHashJoinAI.
+		dp, _ := plan()
+		if strings.Contains(strings.Join(dp, "\n"), "HashLookup") {
+			c.rec.Excluded(1)
+			c.rec.Class("excluded:shared_hashjoin_collated_key", 1)
 			return
 		}
 	}
@@ -1152,6 +1189,17 @@ func TestVerif_C26(t *testing.T) {
 			t.Errorf("%s", msg)
 		}
 	})
+	t.Run("pinned_hashjoin_accent_insensitive_key", func(t *testing.T) {
+		if msg := c26PinnedHashJoinAI(t, srv, admin); msg != "" {
+			if vh.OpenFinding("C26", c26FindHashJoinAI) {
+				vh.ReportKnown("C26", c26FindHashJoinAI, msg)
+				return
+			}
+			// the reference engine shares the defect, so the property itself is not violated: the
+			// sub-test only documents it
+			t.Logf("not listed as a finding: %s", msg)
+		}
+	})
 	t.Run("pinned_valuerow_null_comparison", func(t *testing.T) {
 		if msg := c26PinnedValueRowNull(t, srv, admin); msg != "" {
 			if vh.OpenFinding("C26", c26FindValueRowNull) {
@@ -1249,7 +1297,7 @@ func TestVerif_C26(t *testing.T) {
 			}
 		}
 		defer func() {
-			for _, k := range []string{"decimal_type_extreme_literal", "prefix_index_on_pk_column", "two_string_group_columns"} {
+			for _, k := range []string{"decimal_type_extreme_literal", "prefix_index_on_pk_column", "two_string_group_columns", "decimal_negated_equality", "nullsafe_equal_on_ci_column"} {
 				if n := qExcludedLits[k]; n > 0 {
 					rec.Excluded(n)
 					rec.Class("excluded:"+k, n)
